@@ -248,7 +248,9 @@ INFO = {
                    "chooses keep / replace (fresh symbolic inode) / remove the node, close() failure and the command's "
                    "outcome; the explorer enumerates the event sequences and z3 decides every inode comparison, so "
                    "'handle.inode == inode at send time', closing of superseded handles, and exactly-once release are "
-                   "decided for all inode values.",
+                   "decided for all inode values. Further events: a re-open that is refused for as long as the execute lasts, a "
+                   "node that vanishes between the re-open and the following stat; two device objects on one path with "
+                   "replugs in between.",
     "functions": ["SCSIDevice.__init__/open/close/execute/_is_replugged/__enter__/__exit__", "get_inode",
                   "SCSI.__enter__/__exit__", "ISCSIDevice.close/__exit__"],
     "bounds": {"history length": "k <= 3 quick, <= 5 thorough", "inodes": "12-bit symbolic per step", "events": EVENTS},
